@@ -14,7 +14,8 @@ TECHNIQUE = ("property-based testing (Hypothesis): annotated assemblies with gen
              "assembly stripped of citations, plus reference-resolution oracle; "
              "three consecutive calls on the same objects")
 RULE = ("C08's annotated assemblies where each input has a reference list of 0-4 "
-        "references drawn from a pool of 8 (so references are shared between inputs, "
+        "references (one list in eight has 10-13 entries, so that two-digit indices "
+        "occur; some references carry a base span) drawn from a pool of 14 (so references are shared between inputs, "
         "distinct within one; four of them differ from each other in a single field) and features citing 0-3 of them as '[n]' (always in "
         "range), cited features inside and outside the retained arcs. Oracle: (1) "
         "same product sequence as the run with all citations and reference lists "
@@ -116,8 +117,9 @@ def check(spec, ctx):
                     raise Violation("CITATION-TARGET", "call %d: feature %r cites [%d] = %r, its source "
                                     "cited %r" % (call, label, i, getattr(got, "title", got), w["title"]))
                 cited.append(rec.ref_fields(got))
-        fields = [rec.ref_fields(x) for x in reflist]
-        for c in set(cited):
+        # a reference is identified by its descriptive fields (not by its base span)
+        fields = [rec.ref_fields(x)[:7] for x in reflist]
+        for c in set(x[:7] for x in cited):
             if fields.count(c) != 1:
                 raise Violation("REFERENCE-LIST", "call %d: cited reference %r occurs %d times in the "
                                 "product's reference list" % (call, c[1], fields.count(c)))
